@@ -80,6 +80,21 @@ class Ctx:
         """Fail closed: an anchor the rule is written against is not recognisable."""
         return self._add(rid, "anchor-unrecognised:" + what, False, detail or ("cannot find / interpret " + what), None)
 
+    def include(self, rid, text, *rule_fns, only=None):
+        """Run rule functions of another property in a sub-context and adopt their obligations under `rid`
+        (shared prerequisite clauses).  `only` = substring filter on the adopted keys."""
+        self.rules[rid] = text
+        sub = Ctx(self.pid, self.tier)
+        for fn in rule_fns:
+            fn(sub)
+        for o in sub.obs:
+            tail = o.key.split("/", 1)[1] if "/" in o.key else o.key
+            if only is not None and not any(x in tail for x in only):
+                continue
+            self._add(rid, tail, o.ok, o.detail, o.site)
+        for k, v in sub.tables.items():
+            self.tables.setdefault(k, v)
+
     def note(self, text):
         self.notes.append(text)
 
